@@ -39,12 +39,14 @@ func vfGenC07Session(t *rapid.T) vfCaseC07 {
 	for i := 0; i < ns; i++ {
 		r := vfGenReq(t, []string{"STAT", "MKDIR", "READDIR", "OPEN", "CLOSE", "SETSTAT", "RENAME"})
 		if r.T == "RENAME" {
-			// never move a file into (or out of) the directory the tail lists: the write handle follows its
-			// file, and a WRITE racing with the READDIR would make the listed size a matter of scheduling
-			inDir := func(p int) bool { return p == 1 || p == 2 || p == 3 || p == 10 || p == 12 || p == 13 }
-			if inDir(r.P) || inDir(r.P2) {
-				r.P, r.P2 = 4, 9
+			// never rename a file an open handle of this session refers to, nor move anything into the directory
+			// the tail lists: a handle follows its file, and a WRITE through it racing with a STAT or READDIR of
+			// the new name would make the reported size a matter of scheduling
+			src := map[int]bool{4: true, 5: true, 6: true, 7: true}
+			if !src[r.P] {
+				r.P = 4 + r.P%4
 			}
+			r.P2 = 9
 		}
 		c.Sync = append(c.Sync, r)
 	}
